@@ -66,6 +66,9 @@ func (d *vfC04Driver) GetServiceInstance(serviceName, instanceID string) (*servi
 	return nil, fmt.Errorf("not found")
 }
 func (d *vfC04Driver) ListServiceInstances(serviceName string) (map[string]*serviceregistry.ServiceInstanceSpec, error) {
+	if vfC04SlowListing > 0 {
+		time.Sleep(vfC04SlowListing) // self-test knob: a registry loop that is busy inside the driver for a long time
+	}
 	d.mu.Lock()
 	defer d.mu.Unlock()
 	if d.failing {
@@ -384,6 +387,14 @@ func vfC04Await(done <-chan struct{}, settle bool, what string) (key, proof stri
 		}
 	}
 }
+
+// vfC04SlowListing (VERIF_C04_SLOWLIST=<duration>) makes every backend listing slow: the hand-over
+// of the next event then stays blocked for that long while the registry loop sits in harness code.
+// No verdict may come out of that (self-test of the "never" proofs).
+var vfC04SlowListing = func() time.Duration {
+	d, _ := time.ParseDuration(os.Getenv("VERIF_C04_SLOWLIST"))
+	return d
+}()
 
 var vfC04Closed = func() chan struct{} { c := make(chan struct{}); close(c); return c }()
 
